@@ -103,39 +103,44 @@ type UnitGen struct {
 	notes    []string
 	curPos   string
 
-	localTypes map[string]types.Type
-	nonNil     map[string]bool
-	closureAt  map[string]*Closure
-	edgeGuard  map[edgeKey]Term
-	inlined    map[string]bool
-	callCtr    map[string]int
-	dropped    map[string]bool
-	fresh0     map[string]bool
-	regionCache map[string]string
-	epochCtr    int
-	loopFrames  int
-	newNames    map[string]bool
-	pure        int
-	topBlock    *ssa.BasicBlock
-	topFrame    *Frame
-	entryEnd    int
-	ghostLocals map[string]Val
-	abnormal    []exit
-	defs        map[string]string // defined name -> definition text
-	patSafe     map[string]bool
-	selfForCall *Val
+	localTypes     map[string]types.Type
+	nonNil         map[string]bool
+	closureAt      map[string]*Closure
+	edgeGuard      map[edgeKey]Term
+	inlined        map[string]bool
+	callCtr        map[string]int
+	dropped        map[string]bool
+	fresh0         map[string]bool
+	regionCache    map[string]string
+	epochCtr       int
+	loopFrames     int
+	newNames       map[string]bool
+	newDefs        map[string]string // definitions of the names in newNames that are define-funs
+	pure           int
+	topBlock       *ssa.BasicBlock
+	topFrame       *Frame
+	entryEnd       int
+	ghostLocals    map[string]Val
+	abnormal       []exit
+	defs           map[string]string // defined name -> definition text
+	patSafe        map[string]bool
+	selfForCall    *Val
 	closureForCall *Closure
-	keyType     map[string]types.Type
-	mapKeyType  map[string]types.Type
-	quantified  bool
-	pendingAxioms []pendingAxiom
-	postAxioms    []pendingAxiom
-	postTyped     []typedVal
-	typedFresh    []typedVal
-	loadLog       map[string]loadedArr
-	axiomDone     map[string]bool
-	assertDone  map[string]bool
-	assertCtr   map[string]int
+	keyType        map[string]types.Type
+	mapKeyType     map[string]types.Type
+	quantified     bool
+	pendingAxioms  []pendingAxiom
+	calleeRes      map[string]bool // pointers returned by contract calls
+	activeLoops    []*activeLoop
+	pendingFresh   []pendingFresh
+	freshCtr       int
+	postAxioms     []pendingAxiom
+	postTyped      []typedVal
+	typedFresh     []typedVal
+	loadLog        map[string]loadedArr
+	axiomDone      map[string]bool
+	assertDone     map[string]bool
+	assertCtr      map[string]int
 }
 
 func (u *UnitGen) freshName(base string) string {
@@ -189,6 +194,9 @@ func (u *UnitGen) define(base string, t Term) Term {
 		u.defs = map[string]string{}
 	}
 	u.defs[n] = t.S
+	if u.newDefs != nil {
+		u.newDefs[n] = t.S
+	}
 	return Term{n, t.Sort}
 }
 
@@ -309,24 +317,52 @@ type writeRef struct {
 }
 
 type tracker struct {
-	written map[string]bool
-	allocs  map[string]bool       // refs allocated inside the loop
-	nset    map[string]int        // writes per key
-	nmark   map[string]int        // writes per key whose target object is known
-	refs    map[string][]writeRef // target objects per key
-	silent  bool
+	written   map[string]bool
+	allocs    map[string]bool       // refs allocated inside the loop
+	calleeRes map[string]bool       // pointers returned by contract calls inside the loop
+	nset      map[string]int        // writes per key
+	nmark     map[string]int        // writes per key whose target object is known
+	refs      map[string][]writeRef // target objects per key
+	claimed   map[string]bool       // keys written through a callee result (freshness claimed, checked in the real run)
+	silent    bool
 }
 
 func newTracker() *tracker {
-	return &tracker{written: map[string]bool{}, allocs: map[string]bool{}, nset: map[string]int{}, nmark: map[string]int{}, refs: map[string][]writeRef{}}
+	return &tracker{written: map[string]bool{}, allocs: map[string]bool{}, calleeRes: map[string]bool{}, claimed: map[string]bool{}, nset: map[string]int{}, nmark: map[string]int{}, refs: map[string][]writeRef{}}
 }
 
 // markStore announces that the next set(key) writes index ref of array key.
 func (u *UnitGen) markStore(key string, ref Term) {
 	for _, tr := range u.trackers {
 		tr.nmark[key]++
-		tr.refs[key] = append(tr.refs[key], writeRef{ref, tr.allocs[ref.S]})
+		tr.refs[key] = append(tr.refs[key], writeRef{ref, tr.allocs[ref.S] || tr.calleeRes[ref.S]})
+		if tr.calleeRes[ref.S] {
+			tr.claimed[key] = true
+		}
 	}
+	if u.dry == 0 && u.calleeRes[ref.S] {
+		for _, al := range u.activeLoops {
+			if al.keys[key] && al.li.blocks[al.fr.curBlock] {
+				u.pendingFresh = append(u.pendingFresh, pendingFresh{key, ref, al})
+			}
+		}
+	}
+}
+
+// activeLoop: a cut loop whose frame for some heap arrays claims that objects handed back by
+// callees inside the body are new (allocated after the loop head); every write to such an array
+// through a callee result inside the body carries the obligation that this is so.
+type activeLoop struct {
+	li      *loopInfo
+	fr      *Frame
+	headTop Term
+	keys    map[string]bool
+}
+
+type pendingFresh struct {
+	key string
+	ref Term
+	al  *activeLoop
 }
 
 // markStoreFresh announces that the next set(key) only affects objects allocated inside every
@@ -348,6 +384,20 @@ func (u *UnitGen) set(st *State, key string, v Term) {
 		tr.nset[key]++
 	}
 	st.vars[key] = v
+	if len(u.pendingFresh) > 0 {
+		var rest []pendingFresh
+		for _, pf := range u.pendingFresh {
+			if pf.key != key {
+				rest = append(rest, pf)
+				continue
+			}
+			u.freshCtr++
+			u.oblige(st, "loop-frame", fmt.Sprintf("loop%d/frame-fresh#%d", pf.al.li.ordinal, u.freshCtr),
+				"an object handed back by a callee and written inside the loop body was allocated after the loop head (the loop frame relies on it)",
+				App(SBool, ">=", pf.ref, pf.al.headTop))
+		}
+		u.pendingFresh = rest
+	}
 }
 
 // setDef stores a (possibly large) term under a fresh name.
@@ -782,7 +832,6 @@ func (u *UnitGen) logLoad(key string, arr Term) {
 		u.loadLog[arr.S] = loadedArr{key, arr}
 	}
 }
-
 
 func (u *UnitGen) store(st *State, a *Addr, v Term) {
 	switch {
